@@ -2,12 +2,13 @@
 (* Trace judge for C10 (code -> spec).  Reads a JSON list of traces; a trace is
    [ev |-> <<event, ...>>], an event is one call of a public function of falcon.uri
    recorded at its return:
-     [fn, s, plus, out, out2, port, err, alt]
+     [fn, s, plus, out, out2, port, err, alt, alt0]
        s     input text (code points)        out   returned text (code points; parse_host: host)
        plus  decode's unquote_plus           out2  check-escaped encoders: fn(out); else <<>>
        port  parse_host: port, -1 for "the default was returned"
        err   TRUE iff the call raised (out is then <<>>)
        alt   parse_host: the host returned for s followed by ":8042" (<<-1>> if that call raised); else <<>>
+       alt0  parse_host: the host returned for s followed by ":" (an empty port), likewise
    Total: every event is consumed; the first failing clause is recorded.
      P:total       the call raised
      P:decode      decode(s) is not the reference reading
@@ -18,7 +19,7 @@
      P:ce_idem     applying a check-escaped encoder twice differs from once
      P:host P:port parse_host of a valid authority
      P:host_port   the host returned for a valid authority without port differs from the one returned for the
-                   same authority followed by ":8042" (event field alt)
+                   same authority followed by ":8042" or by ":" alone (event fields alt, alt0)
      D:encode_exact / D:ce_exact / D:host / D:port   output differs from the modelled one where the
                    property does not pin it down (over-escaping; mixed input; unvalidated IP literal)
      H:input       the harness recorded a parse_host call for something that is no authority *)
@@ -54,7 +55,8 @@ JudgeHost(e) ==
              v == ValidHostForm(e.s)
          IN  IF e.out # r.host THEN (IF v THEN "P:host" ELSE "D:host")
              ELSE IF e.port # r.port THEN (IF v THEN "P:port" ELSE "D:port")
-             ELSE IF v /\ ~HasPort(e.s) /\ e.alt # e.out THEN "P:host_port"
+             ELSE IF v /\ ~HasColon(e.s) /\ e.alt # e.out THEN "P:host_port"
+             ELSE IF v /\ ~HasColon(e.s) /\ e.alt0 # e.out THEN "P:host_port"
              ELSE "ok"
 
 Judge(e) ==
